@@ -13,7 +13,8 @@ from .execworld import ExecImpl, run_both, val_s, node_s, parse_val
 
 def gen_case(rng, cfg):
     g = Gen(rng, catch_all_p=cfg.get("catch_all_p", 0.12), raise_p=cfg.get("raise_p", 0.06),
-            none_p=cfg.get("none_p", 0.04))
+            none_p=cfg.get("none_p", 0.04), fail_cell_p=cfg.get("fail_cell_p", 0.0),
+            handled_seq_p=cfg.get("handled_seq_p", 0.0), lam_p=cfg.get("lam_p", 0.0))
     ncells = rng.randint(cfg.get("min_cells", 2), cfg.get("max_cells", 6))
     cells, refs = g.program(ncells)
     if cfg.get("all_cached"):
@@ -46,16 +47,22 @@ def gen_case(rng, cfg):
 
 
 def case_json(case):
-    return {"cells": [dict(c, body=sexp(c["body"])) for c in case["cells"]],
-            "cells_raw": case["cells"],
-            "refs": {str(k): v for k, v in case["refs"].items()},
-            "n_rn": case["n_rn"], "maxdepth": case["maxdepth"], "ops": case["ops"]}
+    j = {"cells": [dict(c, body=sexp(c["body"])) for c in case["cells"]],
+         "cells_raw": case["cells"],
+         "refs": {str(k): v for k, v in case["refs"].items()},
+         "n_rn": case["n_rn"], "maxdepth": case["maxdepth"], "ops": case["ops"]}
+    if "label" in case:
+        j["label"] = case["label"]       # which scenario family a structured case belongs to
+    return j
 
 
 def case_from_json(j):
-    return {"cells": [dict(c, body=_untuple(c["body"])) for c in j["cells_raw"]],
+    case = {"cells": [dict(c, body=_untuple(c["body"])) for c in j["cells_raw"]],
             "refs": {int(k): v for k, v in j["refs"].items()},
             "n_rn": j["n_rn"], "maxdepth": j["maxdepth"], "ops": j["ops"]}
+    if "label" in j:
+        case["label"] = j["label"]
+    return case
 
 
 def _untuple(x):
@@ -96,6 +103,21 @@ def features(case, recs, stats):
         stats["hist_with_deep_error"] += 1
     if has_catch_all(case):
         stats["hist_with_catch_all"] += 1
+    if any(c.get("lam") for c in case["cells"]):
+        stats["hist_with_lambda_cells"] += 1
+    if "label" in case:
+        stats["scenario:" + case["label"].split("/")[0]] += 1
+    # measured by the model driver (`obs handled`, only when the property asks for it): top-level evaluations in
+    # which formulas handled failures of their callees themselves, and how they ended
+    for rec in recs:
+        h = rec["obs"].get("handled")
+        if h and rec["op"][0] == "eval":
+            t = h[1].split()
+            if len(t) == 4 and int(t[2]) > 0 and rec["impl"].startswith("err Formula"):
+                stats["evals_escaping_failure_after_handled_failures"] += 1
+                stats["evals_escaping_after_handled:%s_exceptions" % min(int(t[3]), 3)] += 1
+            elif len(t) == 4 and int(t[1]) > 0 and rec["impl"].startswith("ok"):
+                stats["evals_ok_after_handled_failures"] += 1
 
 
 def compare(case, recs, compare_obs, out):
@@ -146,8 +168,10 @@ def shrink_ops(case, still_fails):
     return dict(case, ops=ops)
 
 
-def run_family(ctx, out, cfg, oracle, n_quick, n_thorough, corpus_name=None):
-    """oracle(case, recs, out, stats) evaluates the property on the implementation alone."""
+def run_family(ctx, out, cfg, oracle, n_quick, n_thorough, corpus_name=None, structured=None):
+    """oracle(case, recs, out, stats) evaluates the property on the implementation alone.
+    `structured`: cases (scenario families of the property) run on every run after the corpus and before the
+    random programs.  cfg["model_obs"]: extra `obs` requests answered by the model driver only (measurements)."""
     stats = collections.Counter()
     n = ctx.n(n_quick, n_thorough)
     seen, samples, nontrivial = set(), [], 0
@@ -157,11 +181,14 @@ def run_family(ctx, out, cfg, oracle, n_quick, n_thorough, corpus_name=None):
         for f in sorted(os.listdir(cdir)):
             if f.endswith(".json"):
                 cases.append(case_from_json(json.load(open(os.path.join(cdir, f)))))
+    nfile = len(cases)
+    cases.extend(structured or [])
     ncorpus = len(cases)
     for i in range(n):
         cases.append(gen_case(ctx.rng("case", i), cfg))
+    observe = execworld.OBS + list(cfg.get("model_obs", []))
     for i, case in enumerate(cases):
-        recs = run_both(case["cells"], case["refs"], case["n_rn"], case["maxdepth"], case["ops"])
+        recs = run_both(case["cells"], case["refs"], case["n_rn"], case["maxdepth"], case["ops"], observe=observe)
         features(case, recs, stats)
         ok = compare(case, recs, cfg["compare"], out)
         nt = oracle(case, recs, out, stats)
@@ -182,7 +209,8 @@ def run_family(ctx, out, cfg, oracle, n_quick, n_thorough, corpus_name=None):
         "rule": cfg["rule"],
         "samples": samples,
         "input_distribution": dict(stats),
-        "corpus_cases": ncorpus,
+        "corpus_cases": nfile,
+        "structured_scenarios": ncorpus - nfile,
         "traces_validated_against_impl": len(cases),
         "compared_observables": ["eval result"] + cfg["compare"],
     })
@@ -199,6 +227,7 @@ def replay_family(ctx, payload, out, cfg, oracle):
     if not j:
         return
     case = case_from_json(j)
-    recs = run_both(case["cells"], case["refs"], case["n_rn"], case["maxdepth"], case["ops"])
+    recs = run_both(case["cells"], case["refs"], case["n_rn"], case["maxdepth"], case["ops"],
+                    observe=execworld.OBS + list(cfg.get("model_obs", [])))
     compare(case, recs, cfg["compare"], out)
     oracle(case, recs, out, collections.Counter())
